@@ -1773,35 +1773,40 @@ impl VectorEngine {
             });
         }
 
+        let metric = collection_config_opt
+            .as_ref()
+            .map_or(DistanceMetric::Cosine, |c| c.distance_metric);
+        // Pre-filter: filter first, then score every match with the collection metric
+        let pre_filter = || -> Vec<SearchResult> {
+            self.store
+                .scan(&prefix)
+                .into_iter()
+                .filter_map(|storage_key| {
+                    let tensor = self.store.get(&storage_key).ok()?;
+                    if !Self::evaluate_filter(&tensor, filter) {
+                        return None;
+                    }
+                    let key = storage_key.strip_prefix(&prefix)?;
+                    let vector_value = tensor.get("vector")?;
+                    let vector = Self::extract_vector(vector_value)?;
+                    if vector.len() != query.len() {
+                        return None;
+                    }
+                    let score = Self::compute_score(query, &vector, query_magnitude, metric);
+                    Some(SearchResult::new(key.to_string(), score))
+                })
+                .collect()
+        };
         let mut results: Vec<SearchResult> = match strategy {
-            FilterStrategy::PreFilter | FilterStrategy::Auto => {
-                // Pre-filter: filter first, then search
-                self.store
-                    .scan(&prefix)
-                    .into_iter()
-                    .filter_map(|storage_key| {
-                        let tensor = self.store.get(&storage_key).ok()?;
-                        if !Self::evaluate_filter(&tensor, filter) {
-                            return None;
-                        }
-                        let key = storage_key.strip_prefix(&prefix)?;
-                        let vector_value = tensor.get("vector")?;
-                        let vector = Self::extract_vector(vector_value)?;
-                        if vector.len() != query.len() {
-                            return None;
-                        }
-                        let score = Self::cosine_similarity(query, &vector, query_magnitude);
-                        Some(SearchResult::new(key.to_string(), score))
-                    })
-                    .collect()
-            },
+            FilterStrategy::PreFilter | FilterStrategy::Auto => pre_filter(),
             FilterStrategy::PostFilter => {
                 // Post-filter: search first with oversample, then filter
                 let oversample_k = top_k
                     .saturating_mul(filter_config.oversample_factor)
                     .max(top_k);
                 let candidates = self.search_in_collection(collection, query, oversample_k)?;
-                candidates
+                let truncated = candidates.len() >= oversample_k;
+                let filtered: Vec<SearchResult> = candidates
                     .into_iter()
                     .filter(|r| {
                         let storage_key = Self::collection_embedding_key(collection, &r.key);
@@ -1810,7 +1815,14 @@ impl VectorEngine {
                             .map(|t| Self::evaluate_filter(&t, filter))
                             .unwrap_or(false)
                     })
-                    .collect()
+                    .collect();
+                // The oversampled window was full and still held fewer than k matches:
+                // matches may lie beyond it, so fall back to the exact pre-filter scan.
+                if filtered.len() < top_k && truncated {
+                    pre_filter()
+                } else {
+                    filtered
+                }
             },
         };
 
